@@ -68,6 +68,8 @@ def gen(rng, tier):
             dec(rng.randrange(2), rng.randrange(2), s, "exhaustive-small")
     for _ in range(200 if tier == "quick" else 3000):
         L = rng.randrange(1, 40); alldec(bytes(rng.choice(A + b"==a \n\x80") for _ in range(L)), "random-mixed")
+    # every API family once during static initialisation of the driver (before the library's own dynamic initialisers have run)
+    cases.append(Case("staticinit", "static-initialisation battery", True, spec="staticinit"))
     return cases
 
 def key(case, impl, model):
